@@ -285,7 +285,56 @@ def rule_cache(ck):
     ck.ob("mpt.call_cache", "clear/clears-the-map", any(c.name.endswith("::clear") and "HashMap" in c.name for c in g.calls()), "", g.loc())
 
 
+def rule_call_stack(ck):
+    """the injected CALL must not write into the interrupted function's red zone"""
+    prog = ck.prog
+    ck.rule("bits.call_stack", "CallHelper::call_fn: the register image persisted before the injected `call *%rax` sets Rsp to (original rsp - k) & mask with k >= 128 (System V red zone: a leaf function may keep live data in the 128 bytes below rsp; CALL pushes the return address at rsp-8 and the callee's frame follows) and mask clearing exactly the low 4 bits (16-byte alignment at the call instruction). The scratch syscalls and the jump push nothing and keep rsp")
+    f = ck.anchor("debugger::call::CallHelper::call_fn")
+    pers = [c for c in f.calls() if c.name.endswith("RegisterMap::persist")]
+    cont = [c for c in f.calls() if c.name == "nix::sys::ptrace::cont"]
+    ups = [c for c in f.calls() if c.name.endswith("RegisterMap::update") and "Rsp" in expr_str(expr_of(f, c.args[1], depth=4), 4)]
+    if not ck.ob("bits.call_stack", "call_fn/sets-rsp-before-the-call", len(ups) == 1 and len(pers) == 1 and len(cont) == 1 and f.dominates(ups[0].bb, pers[0].bb) and f.dominates(pers[0].bb, cont[0].bb), f"{len(ups)} Rsp updates before persist/cont: the call runs on the interrupted function's stack pointer and overwrites its red zone", f.loc(), what="an injected call overwrites the red zone (128 bytes below rsp) of the interrupted function"):
+        return
+    v = expr_of(f, ups[0].args[2], depth=10)
+    ok = False
+    d = expr_str(v, 8)
+    if v[0] == "bin" and v[1] == "BitAnd":
+        parts = [v[2], v[3]]
+        masks = [x for x in parts if x[0] in ("const",) or (x[0] == "un" and x[1] == "Not")]
+        rest = [x for x in parts if x not in masks]
+        mask_ok = False
+        for m in masks:
+            if m[0] == "const" and (m[1] & 0xFFFFFFFFFFFFFFFF) == 0xFFFFFFFFFFFFFFF0:
+                mask_ok = True
+            if m[0] == "un" and m[2] == ("const", 0xF):
+                mask_ok = True
+        sub_ok = False
+        if len(rest) == 1:
+            r = rest[0]
+            if r[0] == "try":
+                r = r[1]
+            if r[0] == "call" and r[1].split("::")[-1] in ("saturating_sub", "wrapping_sub", "checked_sub") and len(r[2]) == 2:
+                a, k = r[2]
+            elif r[0] == "bin" and r[1].startswith("Sub"):
+                a, k = r[2], r[3]
+            elif r[0] == "field" and r[1][0] == "bin" and r[1][1].startswith("Sub"):
+                a, k = r[1][2], r[1][3]
+            else:
+                a = k = None
+            if a is not None:
+                src = expr_str(a, 6)
+                sub_ok = k[0] == "const" and k[1] >= 128 and "value(" in src and "Rsp" in src and ".regs" in src
+        ok = mask_ok and sub_ok
+    ck.ob("bits.call_stack", "call_fn/rsp=(orig-128..)&~15", ok, f"Rsp := {d[:120]}", f.loc(ups[0].bb))
+    # siblings: jump / mmap / munmap keep the stack pointer (they execute `jmp` / `syscall`, nothing is pushed)
+    for nm in ("jump", "mmap", "munmap"):
+        g = ck.anchor(f"debugger::call::CallHelper::{nm}")
+        bad = [c for c in g.calls() if c.name.endswith("RegisterMap::update") and "Rsp" in expr_str(expr_of(g, c.args[1], depth=4), 4)]
+        ck.ob("bits.call_stack", f"{nm}/keeps-rsp", not bad, "", g.loc())
+
+
 def run(ck):
+    rule_call_stack(ck)
     rule_restore(ck)
     rule_brkpts(ck)
     rule_arg_regs(ck)
